@@ -8,7 +8,7 @@ import subprocess
 
 from . import common as c
 
-SUPPORT = ["Ast/Tree.v", "Ast/Search.v", "Ast/SearchProofs.v", "Ast/Linked.v", "Ast/Node.v", "Ast/PathRefine.v"]
+SUPPORT = ["Ast/Tree.v", "Ast/Search.v", "Ast/SearchProofs.v", "Ast/Linked.v", "Ast/Node.v", "Ast/PathRefine.v", "Ast/PruneProofs.v"]
 
 CLAIM = {
     "gens": ["AstConsts"],
@@ -18,7 +18,8 @@ CLAIM = {
             "ValidateJSON) and of the SAX traverser of ast/visitor.go; specification navigate (first occurrence; not-found vs wrong "
             "kind) and the preorder flattening of the tree. Theorems: match_key = comparison of the decoded name; the fast and the "
             "validating skippers consume exactly one value of any well-formed stream; search_spec (the search returns exactly the "
-            "value navigate addresses, or its verdict, for every tree and path, with and without ValidateJSON); preorder_spec. "
+            "value navigate addresses, or its verdict, for every tree and path, with and without ValidateJSON); preorder_spec; "
+            "preorder_skip_spec (a visitor answering VisitOPSkip: the skipped container contributes Begin+End only). "
             "Tie: (document, path) pairs on sonic.Get*/GetWithOptions under all 8 SearchOptions, ast.Searcher, Node.GetByPath on raw, "
             "concurrent-read and loaded roots, observables Raw/Interface/typed accessors/ForEach and recorded Preorder callbacks; "
             "oracle: encoding/json token-level walk.",
